@@ -218,20 +218,20 @@ def relational(run, seed, models, thorough):
     from cogent3 import make_aligned_seqs
 
     aln = make_aligned_seqs({"a": "ACGTACGTTGCA", "b": "ACGTACATTGCA", "c": "ACCTACGTTGAA"}, moltype="dna")
-    for dist, bins, shape in (("gamma", 4, 0.7), ("gamma", 3, 2.5), ("free", 2, None), ("free", 3, None)):
+    for dist, bins, shape, equal in (("gamma", 4, 0.7, True), ("gamma", 3, 2.5, True), ("gamma", 4, 0.3, False), ("gamma", 2, 1.3, False), ("free", 2, None, False), ("free", 3, None, False)):
         sm = get_model("HKY85", ordered_param="rate", distribution=dist)
         lf = sm.make_likelihood_function(tree(), bins=bins)
         lf.set_alignment(aln)
         if shape is not None:
             lf.set_param_rule("rate_shape", value=shape)
-        else:
+        if not equal:
             w = [rnd.uniform(0.2, 1.0) for _ in range(bins)]
             lf.set_param_rule("bprobs", value=[x / sum(w) for x in w])
         bp = lf.get_param_value("bprobs")
         rates = [lf.get_param_value("rate", bin=b) for b in lf.bin_names]
         n += 1
         if abs(sum(p * r for p, r in zip(bp, rates)) - 1.0) > 1e-9:
-            run.fail(f"relational:rate-classes:{dist}:{bins}", {"bprobs": list(map(float, bp)), "rates": list(map(float, rates))}, what="rate-class multipliers do not average to one")
+            run.fail(f"relational:rate-classes:{dist}:{'equal' if equal else 'unequal'}-bprobs", {"bprobs": list(map(float, bp)), "rates": list(map(float, rates))}, what="rate-class multipliers do not average to one")
     return n
 
 
